@@ -15,7 +15,12 @@ import PyxModel.Oal.Expr
   list productions below them) is covered; the list is `implementedProds` at the end of this file and is
   compared with the productions read from the p_* docstrings (Gen/OalPrec.lean) in Props/C07.lean.
 
-  Domain restriction, as for expressions: names are ID tokens (no keyword-as-identifier).
+  Names are tokens of the classes `Kind.isVarName` (variable_name, rel_id) / `Kind.isIdent` (identifier), so
+  keywords are accepted as names exactly where the grammar's kw_as_identifier productions allow them; the
+  grammar is LALR(1) without conflicts (PLY reports none besides the operator precedences), so what PLY
+  accepts is what the grammar derives, and the two places where a predictive parser must look one token
+  further are: a statement that begins with a keyword which is also a variable name (it is the variable iff
+  `=`, `.` or `[` follows) and `FROM INSTANCES` (the keyword pair iff `OF` follows).
 -/
 namespace Pyx.Oal
 
@@ -36,32 +41,38 @@ structure CardTok where
 
 /-- `instance_name : variable_name | SELF` (the node keeps the lexeme) -/
 inductive InstName where
-  | var (n : String)
+  | var (n : Tok)
   | self (lex : String)
+  deriving DecidableEq, Repr
+
+/-- `phrase : TICKED_PHRASE | identifier`; the node keeps the ticked lexeme resp. `'identifier'` -/
+inductive Phrase where
+  | ticked (lex : String)
+  | ident (n : Tok)
   deriving DecidableEq, Repr
 
 /-- `NavigationStepNode(key_letter, rel_id, phrase)` : `-> KL [ R1 ]` / `-> KL [ R1 . 'phrase' ]` -/
 structure NavStep where
-  kl : String
-  rel : String
-  phrase : Option String
+  kl : Tok
+  rel : Tok
+  phrase : Option Phrase
   deriving DecidableEq, Repr
 
 /-- `EventSpecNode(identifier, meaning, event_data)` -/
 structure EvSpec where
-  id : String
+  id : Tok
   /-- `identifier TIMES …` (p_ploymorphic_event_spec): not recorded in the node -/
   star : Bool
-  /-- `COLON phrase`: the TICKED_PHRASE lexeme -/
-  meaning : Option String
+  /-- `COLON phrase` -/
+  meaning : Option Phrase
   /-- `LPAREN event_parameter_list RPAREN` written (true) or `event_data : <empty>` (false) -/
   parens : Bool
   data : Params
 
 /-- where an event goes: `TO identifier CLASS|ASSIGNER`, `TO identifier CREATOR`, `TO variable_access|self_access` -/
 inductive EvTarget where
-  | cls (kl : String) (assigner : Bool)
-  | creator (kl : String)
+  | cls (kl : Tok) (assigner : Bool)
+  | creator (kl : Tok)
   | inst (e : Expr)
 
 /-- which subclass `p[k].__class__ = …` turns the ImplicitInvocationNode into -/
@@ -88,36 +99,36 @@ inductive Stmt where
   | invoke (inv : Expr)
   /-- BRIDGE|TRANSFORM|SEND [variable_access EQUAL] implicit_invocation :
       `InvocationStatementNode(X)` / `AssignmentNode(va, X)` with X a Bridge/Class/PortInvocationNode -/
-  | kwCall (k : IKind) (va : Option Expr) (ns name : String) (ps : Params)
+  | kwCall (k : IKind) (va : Option Expr) (ns : String) (name : Tok) (ps : Params)
   /-- TRANSFORM [variable_access EQUAL] instance_invocation -/
-  | trCall (va : Option Expr) (h : Expr) (name : String) (ps : Params)
+  | trCall (va : Option Expr) (h : Expr) (name : Tok) (ps : Params)
   /-- `GeneratePortEventNode(port_name, action_name, parameter_list, expression)` : SEND NS::f(…) TO expression -/
-  | sendEvent (port name : String) (ps : Params) (to : Expr)
+  | sendEvent (port : String) (name : Tok) (ps : Params) (to : Expr)
   /-- GENERATE event_specification TO … : GenerateClassEventNode / GenerateCreatorEventNode / GenerateInstanceEventNode -/
   | gen (es : EvSpec) (tg : EvTarget)
   /-- `GeneratePreexistingNode(variable_access)` : GENERATE variable_access -/
   | genPre (va : Expr)
   /-- CREATE EVENT INSTANCE v OF event_specification TO … : Create{Class,Creator,Instance}EventNode -/
-  | crtEv (v : String) (es : EvSpec) (tg : EvTarget)
+  | crtEv (v : Tok) (es : EvSpec) (tg : EvTarget)
   /-- `CreateObjectNode(variable_name, key_letter)` -/
-  | createObj (v kl : String)
+  | createObj (v kl : Tok)
   /-- `CreateObjectNoVariableNode(key_letter)` -/
-  | createObjNoVar (kl : String)
+  | createObjNoVar (kl : Tok)
   /-- `DeleteNode(variable_name)` -/
   | delete (i : InstName)
   /-- `ForEachNode(instance_variable_name, set_variable_name, block)` : FOR EACH v IN s [LOOP] block END_FOR -/
-  | forEach (v set : String) (loop : Bool) (b : Block)
+  | forEach (v set : Tok) (loop : Bool) (b : Block)
   /-- `WhileNode(expression, block)` : WHILE expression [LOOP] block END_WHILE -/
   | while_ (c : Expr) (loop : Bool) (b : Block)
   /-- `IfNode(expression, block, elif_list, else_clause)` -/
   | if_ (c : Expr) (thn : Bool) (b : Block) (elifs : Elifs) (els : Else)
   /-- `RelateNode` / `RelateUsingNode` / `UnrelateNode` / `UnrelateUsingNode`
       (from_variable_name, to_variable_name, rel_id, phrase[, using_variable_name]) -/
-  | rel (un : Bool) (a b : InstName) (rel : String) (phrase : Option String) (usg : Option InstName)
+  | rel (un : Bool) (a b : InstName) (rel : Tok) (phrase : Option Phrase) (usg : Option InstName)
   /-- `SelectFromNode(cardinality, variable_name, key_letter)` / `SelectFromWhereNode(…, where_clause)` -/
-  | selFrom (card : CardTok) (v : String) (instOf : Bool) (kl : String) (w : Option Expr)
+  | selFrom (card : CardTok) (v : Tok) (instOf : Bool) (kl : Tok) (w : Option Expr)
   /-- `SelectRelatedNode(cardinality, variable_name, handle, navigation_chain)` / `SelectRelatedWhereNode` -/
-  | selRel (card : CardTok) (v : String) (hook : Expr) (chain : List NavStep) (w : Option Expr)
+  | selRel (card : CardTok) (v : Tok) (hook : Expr) (chain : List NavStep) (w : Option Expr)
 /-- `BlockNode(StatementListNode)`: the non-empty statements in order -/
 inductive Block where
   | nil
@@ -138,9 +149,14 @@ def expectK (k : Kind) : List Tok → Option (List Tok)
   | tok :: ts => if tok.kind = k then some ts else none
   | [] => none
 
-/-- an ID token: its lexeme -/
-def takeId : List Tok → Option (String × List Tok)
-  | tok :: ts => if tok.kind = .ID then some (tok.lex, ts) else none
+/-- an `identifier` token (ID or one of the keywords the grammar allows as an identifier) -/
+def takeIdent : List Tok → Option (Tok × List Tok)
+  | tok :: ts => if tok.kind.isIdent then some (tok, ts) else none
+  | [] => none
+
+/-- a `variable_name` / `rel_id` token (`limited_identifier`) -/
+def takeVarName : List Tok → Option (Tok × List Tok)
+  | tok :: ts => if tok.kind.isVarName then some (tok, ts) else none
   | [] => none
 
 /-- skip one token of kind `k` if it is there; tells whether it was -/
@@ -149,21 +165,21 @@ def optK (k : Kind) (ts : List Tok) : Bool × List Tok :=
 
 def parseInstName : List Tok → Option (InstName × List Tok)
   | tok :: ts =>
-    if tok.kind = .ID then some (.var tok.lex, ts)
-    else if tok.kind = .SELF then some (.self tok.lex, ts)
+    if tok.kind = .SELF then some (.self tok.lex, ts)
+    else if tok.kind.isVarName then some (.var tok, ts)
     else none
   | [] => none
 
 /-- `phrase : TICKED_PHRASE | identifier` (the identifier form yields `'identifier'`) -/
-def parsePhrase : List Tok → Option (String × List Tok)
+def parsePhrase : List Tok → Option (Phrase × List Tok)
   | tok :: ts =>
-    if tok.kind = .TICKED_PHRASE then some (tok.lex, ts)
-    else if tok.kind = .ID then some ("'" ++ tok.lex ++ "'", ts)
+    if tok.kind = .TICKED_PHRASE then some (.ticked tok.lex, ts)
+    else if tok.kind.isIdent then some (.ident tok, ts)
     else none
   | [] => none
 
 /-- `[DOT phrase]` -/
-def parseOptPhrase (ts : List Tok) : Option (Option String × List Tok) :=
+def parseOptPhrase (ts : List Tok) : Option (Option Phrase × List Tok) :=
   if hk ts = some .DOT then
     match parsePhrase (ts.drop 1) with
     | some (p, ts') => some (some p, ts')
@@ -173,9 +189,9 @@ def parseOptPhrase (ts : List Tok) : Option (Option String × List Tok) :=
 /-- `navigation_step : ARROW identifier LSQBR identifier [DOT phrase] RSQBR` -/
 def parseNavStep (ts : List Tok) : Option (NavStep × List Tok) := do
   let ts ← expectK .ARROW ts
-  let (kl, ts) ← takeId ts
+  let (kl, ts) ← takeIdent ts
   let ts ← expectK .LSQBR ts
-  let (rel, ts) ← takeId ts
+  let (rel, ts) ← takeIdent ts
   let (ph, ts) ← parseOptPhrase ts
   let ts ← expectK .RSQBR ts
   pure (⟨kl, rel, ph⟩, ts)
@@ -195,9 +211,9 @@ def parseNavChain : Nat → List Tok → Option (List NavStep × List Tok)
 
 /-- what an access chain or an invocation may begin with (not a literal, a parenthesis or an operator) -/
 def isAccessStart : Option Kind → Bool
-  | some .ID | some .SELF | some .SELECTED | some .PARAM | some .RCVD_EVT | some .NAMESPACE
-  | some .DOUBLECOLON => true
-  | _ => false
+  | some .SELF | some .SELECTED | some .PARAM | some .RCVD_EVT | some .NAMESPACE | some .DOUBLECOLON => true
+  | some k => k.isVarName
+  | none => false
 
 /-- `variable_access`, `self_access`, `selected_access`, `invocation` or `NS::name`, by the operand parser -/
 def parseAccess (t : Tbl) (f : Nat) (ts : List Tok) : Option (Expr × List Tok) :=
@@ -220,7 +236,7 @@ def Expr.isInvocation : Expr → Bool
   | _ => false
 
 /-- `event_meaning : COLON phrase | <empty>` -/
-def parseEvMeaning (ts : List Tok) : Option (Option String × List Tok) :=
+def parseEvMeaning (ts : List Tok) : Option (Option Phrase × List Tok) :=
   if hk ts = some .COLON then
     match parsePhrase (ts.drop 1) with
     | some (p, ts') => some (some p, ts')
@@ -228,7 +244,7 @@ def parseEvMeaning (ts : List Tok) : Option (Option String × List Tok) :=
   else some (none, ts)
 
 /-- `event_data : LPAREN event_parameter_list RPAREN | <empty>` (the list has the shape of `parameter_list`) -/
-def parseEvData (t : Tbl) (f : Nat) (id : String) (star : Bool) (meaning : Option String) (ts : List Tok) :
+def parseEvData (t : Tbl) (f : Nat) (id : Tok) (star : Bool) (meaning : Option Phrase) (ts : List Tok) :
     Option (EvSpec × List Tok) :=
   if hk ts = some .LPAREN then
     match parseParams t f (ts.drop 1) with
@@ -241,12 +257,17 @@ def parseEvData (t : Tbl) (f : Nat) (id : String) (star : Bool) (meaning : Optio
 
 /-- `event_specification : identifier [TIMES] event_meaning event_data` -/
 def parseEvSpec (t : Tbl) (f : Nat) (ts : List Tok) : Option (EvSpec × List Tok) :=
-  match takeId ts with
+  match takeIdent ts with
   | some (id, ts1) =>
     match parseEvMeaning (optK .TIMES ts1).2 with
     | some (meaning, ts2) => parseEvData t f id (optK .TIMES ts1).1 meaning ts2
     | none => none
   | none => none
+
+/-- does the token list begin with a token of the given class? -/
+def hkIs (p : Kind → Bool) : List Tok → Bool
+  | tok :: _ => p tok.kind
+  | [] => false
 
 def isClassWord : Option Kind → Bool
   | some .CLASS | some .ASSIGNER | some .CREATOR => true
@@ -254,11 +275,11 @@ def isClassWord : Option Kind → Bool
 
 /-- what follows `TO` in the event statements -/
 def parseEvTarget (t : Tbl) (f : Nat) (ts : List Tok) : Option (EvTarget × List Tok) :=
-  if hk ts = some .ID ∧ isClassWord (hk (ts.drop 1)) = true then
+  if hkIs Kind.isIdent ts = true ∧ isClassWord (hk (ts.drop 1)) = true then
     match ts with
     | nm :: w :: ts' =>
-      if w.kind = .CREATOR then some (.creator nm.lex, ts')
-      else some (.cls nm.lex (decide (w.kind = .ASSIGNER)), ts')
+      if w.kind = .CREATOR then some (.creator nm, ts')
+      else some (.cls nm (decide (w.kind = .ASSIGNER)), ts')
     | _ => none
   else
     match parseAccess t f ts with
@@ -267,7 +288,7 @@ def parseEvTarget (t : Tbl) (f : Nat) (ts : List Tok) : Option (EvTarget × List
 
 /-- after GENERATE: does an event specification follow (rather than a variable_access)? -/
 def startsEvSpec (ts : List Tok) : Bool :=
-  hk ts = some .ID &&
+  hkIs Kind.isIdent ts &&
     (match hk (ts.drop 1) with
      | some .TIMES | some .COLON | some .LPAREN | some .TO => true
      | _ => false)
@@ -309,7 +330,7 @@ def parseRel (un : Bool) (ts : List Tok) : Option (Stmt × List Tok) :=
       | some (b, ts3) =>
         match expectK .ACROSS ts3 with
         | some ts4 =>
-          match takeId ts4 with
+          match takeVarName ts4 with
           | some (r, ts5) =>
             match parseOptPhrase ts5 with
             | some (ph, ts6) =>
@@ -333,19 +354,16 @@ def parseCard : List Tok → Option (CardTok × List Tok)
     else none
   | [] => none
 
-/-- `[INSTANCES OF]` -/
+/-- `[INSTANCES OF]`: the keyword pair iff OF follows (otherwise `instances` is the key letters) -/
 def parseInstOf (ts : List Tok) : Option (Bool × List Tok) :=
-  if hk ts = some .INSTANCES then
-    match expectK .OF (ts.drop 1) with
-    | some ts' => some (true, ts')
-    | none => none
+  if hk ts = some .INSTANCES ∧ hk (ts.drop 1) = some .OF then some (true, ts.drop 2)
   else some (false, ts)
 
 /-- SELECT ANY|MANY v FROM · : `[INSTANCES OF] identifier [WHERE expression]` -/
-def parseSelFrom (t : Tbl) (f : Nat) (card : CardTok) (v : String) (ts : List Tok) : Option (Stmt × List Tok) :=
+def parseSelFrom (t : Tbl) (f : Nat) (card : CardTok) (v : Tok) (ts : List Tok) : Option (Stmt × List Tok) :=
   match parseInstOf ts with
   | some (io, ts1) =>
-    match takeId ts1 with
+    match takeIdent ts1 with
     | some (kl, ts2) =>
       match parseOptWhere t f ts2 with
       | some (w, ts3) => some (.selFrom card v io kl w, ts3)
@@ -354,7 +372,7 @@ def parseSelFrom (t : Tbl) (f : Nat) (card : CardTok) (v : String) (ts : List To
   | none => none
 
 /-- SELECT ONE|ANY|MANY v RELATED BY · : `navigation_hook navigation_chain [WHERE expression]` -/
-def parseSelRel (t : Tbl) (f : Nat) (card : CardTok) (v : String) (ts : List Tok) : Option (Stmt × List Tok) :=
+def parseSelRel (t : Tbl) (f : Nat) (card : CardTok) (v : Tok) (ts : List Tok) : Option (Stmt × List Tok) :=
   match parseAccess t f ts with
   | some (hook, ts1) =>
     if hook.isHook then
@@ -371,7 +389,7 @@ def parseSelRel (t : Tbl) (f : Nat) (card : CardTok) (v : String) (ts : List Tok
 def parseSelect (t : Tbl) (f : Nat) (ts : List Tok) : Option (Stmt × List Tok) :=
   match parseCard ts with
   | some (card, ts1) =>
-    match takeId ts1 with
+    match takeVarName ts1 with
     | some (v, ts2) =>
       if hk ts2 = some .FROM then
         if card.c = .one then none else parseSelFrom t f card v (ts2.drop 1)
@@ -387,10 +405,27 @@ def parseSelect (t : Tbl) (f : Nat) (ts : List Tok) : Option (Stmt × List Tok) 
 
 /-- the tokens a statement can begin with -/
 def Kind.isStmtStart : Kind → Bool
-  | .BREAK | .CONTINUE | .CONTROL | .RETURN | .ASSIGN | .ID | .SELF | .SELECTED | .PARAM | .RCVD_EVT
-  | .NAMESPACE | .DOUBLECOLON | .BRIDGE | .TRANSFORM | .SEND | .GENERATE | .CREATE | .DELETE | .FOR | .WHILE
-  | .IF | .RELATE | .UNRELATE | .SELECT => true
+  | .RETURN | .SELF | .SELECTED | .PARAM | .RCVD_EVT | .NAMESPACE | .DOUBLECOLON | .BRIDGE | .TRANSFORM | .SEND
+  | .WHILE | .IF => true
+  | k => k.isVarName      -- ID and every kw_as_identifier_1 keyword, which includes the other statement keywords
+
+/-- the statement keywords that are also variable names (kw_as_identifier_1) -/
+def Kind.isStmtKeyword : Kind → Bool
+  | .ASSIGN | .BREAK | .CONTINUE | .CONTROL | .CREATE | .DELETE | .FOR | .GENERATE | .RELATE | .SELECT
+  | .UNRELATE => true
   | _ => false
+
+/-- does a statement that begins with `tok` (followed by `ts`) begin with an access chain or an invocation?
+    A keyword that is both a statement keyword and a variable name is the variable iff `=`, `.` or `[` follows. -/
+def startsAccessStmt (tok : Tok) (ts : List Tok) : Bool :=
+  match tok.kind with
+  | .SELF | .SELECTED | .PARAM | .RCVD_EVT | .NAMESPACE | .DOUBLECOLON => true
+  | k =>
+    k.isVarName &&
+      (!k.isStmtKeyword ||
+        (match hk ts with
+         | some .EQUAL | some .DOT | some .LSQBR => true
+         | _ => false))
 
 mutual
 /-- one statement (without its SEMICOLON) -/
@@ -398,6 +433,19 @@ def parseStmt (t : Tbl) : Nat → List Tok → Option (Stmt × List Tok)
   | 0, _ => none
   | _+1, [] => none
   | f+1, tok :: ts =>
+    if startsAccessStmt tok ts then
+      match parsePrefix t f (tok :: ts) with
+      | some (x, ts') =>
+        if hk ts' = some .EQUAL then
+          if x.isVarAccess then
+            match parseExpr t f 0 (ts'.drop 1) with
+            | some (e, ts'') => some (.assign false x e, ts'')
+            | none => none
+          else none
+        else if x.isInvocation then some (.invoke x, ts')
+        else none
+      | none => none
+    else
     match tok.kind with
     | .BREAK => some (.brk, ts)
     | .CONTINUE => some (.cont, ts)
@@ -418,18 +466,6 @@ def parseStmt (t : Tbl) : Nat → List Tok → Option (Stmt × List Tok)
           match parseExpr t f 0 (ts'.drop 1) with
           | some (e, ts'') => some (.assign true va e, ts'')
           | none => none
-        else none
-      | none => none
-    | .ID | .SELF | .SELECTED | .PARAM | .RCVD_EVT | .NAMESPACE | .DOUBLECOLON =>
-      match parsePrefix t f (tok :: ts) with
-      | some (x, ts') =>
-        if hk ts' = some .EQUAL then
-          if x.isVarAccess then
-            match parseExpr t f 0 (ts'.drop 1) with
-            | some (e, ts'') => some (.assign false x e, ts'')
-            | none => none
-          else none
-        else if x.isInvocation then some (.invoke x, ts')
         else none
       | none => none
     | .BRIDGE => parseKw t f .bridge ts
@@ -454,7 +490,7 @@ def parseStmt (t : Tbl) : Nat → List Tok → Option (Stmt × List Tok)
       if hk ts = some .EVENT then
         match expectK .INSTANCE (ts.drop 1) with
         | some ts1 =>
-          match takeId ts1 with
+          match takeVarName ts1 with
           | some (v, ts2) =>
             match expectK .OF ts2 with
             | some ts3 =>
@@ -476,15 +512,15 @@ def parseStmt (t : Tbl) : Nat → List Tok → Option (Stmt × List Tok)
           match expectK .INSTANCE ts1 with
           | some ts2 =>
             if hk ts2 = some .OF then
-              match takeId (ts2.drop 1) with
+              match takeIdent (ts2.drop 1) with
               | some (kl, ts3) => some (.createObjNoVar kl, ts3)
               | none => none
             else
-              match takeId ts2 with
+              match takeVarName ts2 with
               | some (v, ts3) =>
                 match expectK .OF ts3 with
                 | some ts4 =>
-                  match takeId ts4 with
+                  match takeIdent ts4 with
                   | some (kl, ts5) => some (.createObj v kl, ts5)
                   | none => none
                 | none => none
@@ -504,11 +540,11 @@ def parseStmt (t : Tbl) : Nat → List Tok → Option (Stmt × List Tok)
     | .FOR =>
       match expectK .EACH ts with
       | some ts1 =>
-        match takeId ts1 with
+        match takeVarName ts1 with
         | some (v, ts2) =>
           match expectK .IN ts2 with
           | some ts3 =>
-            match takeId ts3 with
+            match takeVarName ts3 with
             | some (s, ts4) =>
               match parseBlock t f (optK .LOOP ts4).2 with
               | some (b, ts5) =>
@@ -606,15 +642,19 @@ def parseStmts (t : Tbl) (ts : List Tok) : Option Block :=
 /-! ### printer -/
 
 def printInst : InstName → Tok
-  | .var n => tk .ID n
+  | .var n => n
   | .self lex => tk .SELF lex
 
-def printOptPhrase : Option String → List Tok
-  | some p => [tk .DOT ".", tk .TICKED_PHRASE p]
+def printPhrase : Phrase → Tok
+  | .ticked lex => tk .TICKED_PHRASE lex
+  | .ident n => n
+
+def printOptPhrase : Option Phrase → List Tok
+  | some p => [tk .DOT ".", printPhrase p]
   | none => []
 
 def printNavStep (s : NavStep) : List Tok :=
-  tk .ARROW "->" :: tk .ID s.kl :: tk .LSQBR "[" :: tk .ID s.rel :: (printOptPhrase s.phrase ++ [tk .RSQBR "]"])
+  tk .ARROW "->" :: s.kl :: tk .LSQBR "[" :: s.rel :: (printOptPhrase s.phrase ++ [tk .RSQBR "]"])
 
 def printNavChain : List NavStep → List Tok
   | [] => []
@@ -622,19 +662,19 @@ def printNavChain : List NavStep → List Tok
 
 def optWord (b : Bool) (w : Tok) : List Tok := if b then [w] else []
 
-def printEvMeaning : Option String → List Tok
-  | some p => [tk .COLON ":", tk .TICKED_PHRASE p]
+def printEvMeaning : Option Phrase → List Tok
+  | some p => [tk .COLON ":", printPhrase p]
   | none => []
 
 def printEvData (t : Tbl) (parens : Bool) (data : Params) : List Tok :=
   if parens then LP :: (renderParams t data ++ [RP]) else []
 
 def printEvSpec (t : Tbl) (es : EvSpec) : List Tok :=
-  tk .ID es.id :: (optWord es.star (tk .TIMES "*") ++ (printEvMeaning es.meaning ++ printEvData t es.parens es.data))
+  es.id :: (optWord es.star (tk .TIMES "*") ++ (printEvMeaning es.meaning ++ printEvData t es.parens es.data))
 
 def printEvTarget (t : Tbl) : EvTarget → List Tok
-  | .cls kl assigner => [tk .ID kl, if assigner then tk .ASSIGNER "assigner" else tk .CLASS "class"]
-  | .creator kl => [tk .ID kl, tk .CREATOR "creator"]
+  | .cls kl assigner => [kl, if assigner then tk .ASSIGNER "assigner" else tk .CLASS "class"]
+  | .creator kl => [kl, tk .CREATOR "creator"]
   | .inst e => renderRaw t e
 
 def printInstOf (io : Bool) : List Tok :=
@@ -648,8 +688,8 @@ def printOptWhere (t : Tbl) : Option Expr → List Tok
   | some e => tk .WHERE "where" :: render t e 0
   | none => []
 
-def printImplicit (t : Tbl) (ns name : String) (ps : Params) : List Tok :=
-  tk .NAMESPACE ns :: tk .DOUBLECOLON "::" :: tk .ID name :: LP :: (renderParams t ps ++ [RP])
+def printImplicit (t : Tbl) (ns : String) (name : Tok) (ps : Params) : List Tok :=
+  tk .NAMESPACE ns :: tk .DOUBLECOLON "::" :: name :: LP :: (renderParams t ps ++ [RP])
 
 mutual
 def printStmt (t : Tbl) : Stmt → List Tok
@@ -670,15 +710,15 @@ def printStmt (t : Tbl) : Stmt → List Tok
   | .gen es tg => tk .GENERATE "generate" :: (printEvSpec t es ++ tk .TO "to" :: printEvTarget t tg)
   | .genPre va => tk .GENERATE "generate" :: renderRaw t va
   | .crtEv v es tg =>
-    tk .CREATE "create" :: tk .EVENT "event" :: tk .INSTANCE "instance" :: tk .ID v :: tk .OF "of" ::
+    tk .CREATE "create" :: tk .EVENT "event" :: tk .INSTANCE "instance" :: v :: tk .OF "of" ::
       (printEvSpec t es ++ tk .TO "to" :: printEvTarget t tg)
   | .createObj v kl =>
-    [tk .CREATE "create", tk .OBJECT "object", tk .INSTANCE "instance", tk .ID v, tk .OF "of", tk .ID kl]
+    [tk .CREATE "create", tk .OBJECT "object", tk .INSTANCE "instance", v, tk .OF "of", kl]
   | .createObjNoVar kl =>
-    [tk .CREATE "create", tk .OBJECT "object", tk .INSTANCE "instance", tk .OF "of", tk .ID kl]
+    [tk .CREATE "create", tk .OBJECT "object", tk .INSTANCE "instance", tk .OF "of", kl]
   | .delete i => [tk .DELETE "delete", tk .OBJECT "object", tk .INSTANCE "instance", printInst i]
   | .forEach v s loop b =>
-    tk .FOR "for" :: tk .EACH "each" :: tk .ID v :: tk .IN "in" :: tk .ID s ::
+    tk .FOR "for" :: tk .EACH "each" :: v :: tk .IN "in" :: s ::
       (optWord loop (tk .LOOP "loop") ++ (printBlock t b ++ [tk .END_FOR "end for"]))
   | .while_ c loop b =>
     tk .WHILE "while" :: (render t c 0 ++ (optWord loop (tk .LOOP "loop") ++ (printBlock t b ++ [tk .END_WHILE "end while"])))
@@ -687,13 +727,13 @@ def printStmt (t : Tbl) : Stmt → List Tok
       (printBlock t b ++ (printElifs t el ++ (printElse t e ++ [tk .END_IF "end if"])))))
   | .rel un a b r ph u =>
     (if un then tk .UNRELATE "unrelate" else tk .RELATE "relate") :: printInst a ::
-      (if un then tk .FROM "from" else tk .TO "to") :: printInst b :: tk .ACROSS "across" :: tk .ID r ::
+      (if un then tk .FROM "from" else tk .TO "to") :: printInst b :: tk .ACROSS "across" :: r ::
       (printOptPhrase ph ++ printUsing u)
   | .selFrom card v io kl w =>
-    tk .SELECT "select" :: tk card.c.kind card.lex :: tk .ID v :: tk .FROM "from" ::
-      (printInstOf io ++ tk .ID kl :: printOptWhere t w)
+    tk .SELECT "select" :: tk card.c.kind card.lex :: v :: tk .FROM "from" ::
+      (printInstOf io ++ kl :: printOptWhere t w)
   | .selRel card v hook chain w =>
-    tk .SELECT "select" :: tk card.c.kind card.lex :: tk .ID v :: tk .RELATED "related" :: tk .BY "by" ::
+    tk .SELECT "select" :: tk card.c.kind card.lex :: v :: tk .RELATED "related" :: tk .BY "by" ::
       (renderRaw t hook ++ (printNavChain chain ++ printOptWhere t w))
 /-- every statement is followed by its SEMICOLON -/
 def printBlock (t : Tbl) : Block → List Tok
@@ -713,12 +753,32 @@ def printStmts (t : Tbl) (b : Block) : List Tok := printBlock t b
 
 /-! ### which trees are statements of the language -/
 
+def Phrase.Ok : Phrase → Prop
+  | .ticked _ => True
+  | .ident n => n.kind.isIdent = true
+
+def optPhraseOk : Option Phrase → Prop
+  | some p => p.Ok
+  | none => True
+
+def InstName.Ok : InstName → Prop
+  | .var n => n.kind.isVarName = true
+  | .self _ => True
+
+def optInstOk : Option InstName → Prop
+  | some i => i.Ok
+  | none => True
+
+def NavStep.Ok (s : NavStep) : Prop :=
+  s.kl.kind.isIdent = true ∧ s.rel.kind.isIdent = true ∧ optPhraseOk s.phrase
+
 def EvSpec.Ok (t : Tbl) (es : EvSpec) : Prop :=
-  es.data.Ok t ∧ (es.parens = false → es.data = .nil)
+  es.id.kind.isIdent = true ∧ optPhraseOk es.meaning ∧ es.data.Ok t ∧ (es.parens = false → es.data = .nil)
 
 def EvTarget.Ok (t : Tbl) : EvTarget → Prop
   | .inst e => e.isHook = true ∧ e.Ok t
-  | _ => True
+  | .cls kl _ => kl.kind.isIdent = true
+  | .creator kl => kl.kind.isIdent = true
 
 def optExprOk (t : Tbl) : Option Expr → Prop
   | some e => e.Ok t
@@ -733,17 +793,22 @@ def Stmt.Ok (t : Tbl) : Stmt → Prop
   | .ret e => optExprOk t e
   | .assign _ va e => va.isVarAccess = true ∧ va.Ok t ∧ e.Ok t
   | .invoke inv => inv.isInvocation = true ∧ inv.Ok t
-  | .kwCall _ va _ _ ps => optVarAccessOk t va ∧ ps.Ok t
-  | .trCall va h _ ps => optVarAccessOk t va ∧ h.isStruct = true ∧ ps.Ok t
-  | .sendEvent _ _ ps to => ps.Ok t ∧ to.Ok t
+  | .kwCall _ va _ n ps => optVarAccessOk t va ∧ n.kind.isIdent = true ∧ ps.Ok t
+  | .trCall va h n ps => optVarAccessOk t va ∧ h.isStruct = true ∧ h.Ok t ∧ n.kind.isIdent = true ∧ ps.Ok t
+  | .sendEvent _ n ps to => n.kind.isIdent = true ∧ ps.Ok t ∧ to.Ok t
   | .gen es tg => es.Ok t ∧ tg.Ok t
   | .genPre va => va.isVarAccess = true ∧ va.Ok t
-  | .crtEv _ es tg => es.Ok t ∧ tg.Ok t
-  | .forEach _ _ _ b => b.Ok t
+  | .crtEv v es tg => v.kind.isVarName = true ∧ es.Ok t ∧ tg.Ok t
+  | .createObj v kl => v.kind.isVarName = true ∧ kl.kind.isIdent = true
+  | .createObjNoVar kl => kl.kind.isIdent = true
+  | .delete i => i.Ok
+  | .forEach v s _ b => v.kind.isVarName = true ∧ s.kind.isVarName = true ∧ b.Ok t
   | .while_ c _ b => c.Ok t ∧ b.Ok t
   | .if_ c _ b el e => c.Ok t ∧ b.Ok t ∧ el.Ok t ∧ e.Ok t
-  | .selFrom card _ _ _ w => card.c ≠ .one ∧ optExprOk t w
-  | .selRel _ _ hook chain w => hook.isHook = true ∧ hook.Ok t ∧ chain ≠ [] ∧ optExprOk t w
+  | .rel _ a b r ph u => a.Ok ∧ b.Ok ∧ r.kind.isVarName = true ∧ optPhraseOk ph ∧ optInstOk u
+  | .selFrom card v _ kl w => card.c ≠ .one ∧ v.kind.isVarName = true ∧ kl.kind.isIdent = true ∧ optExprOk t w
+  | .selRel _ v hook chain w =>
+    v.kind.isVarName = true ∧ hook.isHook = true ∧ hook.Ok t ∧ chain ≠ [] ∧ (∀ s ∈ chain, s.Ok) ∧ optExprOk t w
   | _ => True
 def Block.Ok (t : Tbl) : Block → Prop
   | .nil => True
@@ -758,11 +823,11 @@ end
 
 /-! ### the statement grammar this model implements
 
-  `(lhs, rhs, %prec, body with p[i] written $i)` of every production below `statement` (sorted by lhs, rhs),
-  each with the model function that implements it.  Props/C07.lean (`grammar_shape`) proves that this list
-  is exactly what the translator reads from the `p_*` functions of bridgepoint/oal.py (Gen/OalPrec.lean), so
-  adding, dropping or rewiring a production there breaks an obligation.  The keyword-as-identifier
-  alternatives (`kw_as_identifier_1..4`) are the part of the grammar outside the modelled domain. -/
+  `(lhs, rhs, %prec, body with p[i] written $i)` of every production below `statement` and of the name
+  classes (sorted by lhs, rhs), each with the model function that implements it.  Props/C07.lean
+  (`grammar_shape`) proves that this list is exactly what the translator reads from the `p_*` functions of
+  bridgepoint/oal.py (Gen/OalPrec.lean), so adding, dropping or rewiring a production there — also adding a
+  keyword to or removing it from a kw_as_identifier class — breaks an obligation. -/
 def stmtGrammar : List (String × List String × Option String × String) := [
   -- parseStmts
   ("action", ["action_body"], none,
@@ -824,16 +889,16 @@ def stmtGrammar : List (String × List String × Option String × String) := [
   -- parseEvSpec
   ("event_specification", ["identifier", "event_meaning", "event_data"], none,
     "$0 = EventSpecNode(identifier=$1, meaning=$2, event_data=$3)"),
-  -- NOT MODELLED: keyword as identifier (outside the domain)
+  -- takeIdent / Kind.isIdent
   ("identifier", ["kw_as_identifier_2"], none,
     "$0 = $1"),
-  -- NOT MODELLED: keyword as identifier (outside the domain)
+  -- takeIdent / Kind.isIdent
   ("identifier", ["kw_as_identifier_3"], none,
     "$0 = $1"),
-  -- NOT MODELLED: keyword as identifier (outside the domain)
+  -- takeIdent / Kind.isIdent
   ("identifier", ["kw_as_identifier_4"], none,
     "$0 = $1"),
-  -- takeId
+  -- takeIdent / Kind.isIdent
   ("identifier", ["limited_identifier"], none,
     "$0 = $1"),
   -- parseInstName
@@ -842,10 +907,166 @@ def stmtGrammar : List (String × List String × Option String × String) := [
   -- parseInstName
   ("instance_name", ["variable_name"], none,
     "$0 = $1"),
-  -- takeId
+  -- Kind.isVarName (and Kind.isIdent)
+  ("kw_as_identifier_1", ["ACROSS"], none,
+    "$0 = $1"),
+  -- Kind.isVarName (and Kind.isIdent)
+  ("kw_as_identifier_1", ["ANY"], none,
+    "$0 = $1"),
+  -- Kind.isVarName (and Kind.isIdent)
+  ("kw_as_identifier_1", ["ASSIGN"], none,
+    "$0 = $1"),
+  -- Kind.isVarName (and Kind.isIdent)
+  ("kw_as_identifier_1", ["ASSIGNER"], none,
+    "$0 = $1"),
+  -- Kind.isVarName (and Kind.isIdent)
+  ("kw_as_identifier_1", ["BREAK"], none,
+    "$0 = $1"),
+  -- Kind.isVarName (and Kind.isIdent)
+  ("kw_as_identifier_1", ["BY"], none,
+    "$0 = $1"),
+  -- Kind.isVarName (and Kind.isIdent)
+  ("kw_as_identifier_1", ["CLASS"], none,
+    "$0 = $1"),
+  -- Kind.isVarName (and Kind.isIdent)
+  ("kw_as_identifier_1", ["CONTINUE"], none,
+    "$0 = $1"),
+  -- Kind.isVarName (and Kind.isIdent)
+  ("kw_as_identifier_1", ["CONTROL"], none,
+    "$0 = $1"),
+  -- Kind.isVarName (and Kind.isIdent)
+  ("kw_as_identifier_1", ["CREATE"], none,
+    "$0 = $1"),
+  -- Kind.isVarName (and Kind.isIdent)
+  ("kw_as_identifier_1", ["CREATOR"], none,
+    "$0 = $1"),
+  -- Kind.isVarName (and Kind.isIdent)
+  ("kw_as_identifier_1", ["DELETE"], none,
+    "$0 = $1"),
+  -- Kind.isVarName (and Kind.isIdent)
+  ("kw_as_identifier_1", ["EACH"], none,
+    "$0 = $1"),
+  -- Kind.isVarName (and Kind.isIdent)
+  ("kw_as_identifier_1", ["EVENT"], none,
+    "$0 = $1"),
+  -- Kind.isVarName (and Kind.isIdent)
+  ("kw_as_identifier_1", ["FOR"], none,
+    "$0 = $1"),
+  -- Kind.isVarName (and Kind.isIdent)
+  ("kw_as_identifier_1", ["FROM"], none,
+    "$0 = $1"),
+  -- Kind.isVarName (and Kind.isIdent)
+  ("kw_as_identifier_1", ["GENERATE"], none,
+    "$0 = $1"),
+  -- Kind.isVarName (and Kind.isIdent)
+  ("kw_as_identifier_1", ["IN"], none,
+    "$0 = $1"),
+  -- Kind.isVarName (and Kind.isIdent)
+  ("kw_as_identifier_1", ["INSTANCE"], none,
+    "$0 = $1"),
+  -- Kind.isVarName (and Kind.isIdent)
+  ("kw_as_identifier_1", ["INSTANCES"], none,
+    "$0 = $1"),
+  -- Kind.isVarName (and Kind.isIdent)
+  ("kw_as_identifier_1", ["MANY"], none,
+    "$0 = $1"),
+  -- Kind.isVarName (and Kind.isIdent)
+  ("kw_as_identifier_1", ["OBJECT"], none,
+    "$0 = $1"),
+  -- Kind.isVarName (and Kind.isIdent)
+  ("kw_as_identifier_1", ["ONE"], none,
+    "$0 = $1"),
+  -- Kind.isVarName (and Kind.isIdent)
+  ("kw_as_identifier_1", ["RELATE"], none,
+    "$0 = $1"),
+  -- Kind.isVarName (and Kind.isIdent)
+  ("kw_as_identifier_1", ["RELATED"], none,
+    "$0 = $1"),
+  -- Kind.isVarName (and Kind.isIdent)
+  ("kw_as_identifier_1", ["SELECT"], none,
+    "$0 = $1"),
+  -- Kind.isVarName (and Kind.isIdent)
+  ("kw_as_identifier_1", ["STOP"], none,
+    "$0 = $1"),
+  -- Kind.isVarName (and Kind.isIdent)
+  ("kw_as_identifier_1", ["TO"], none,
+    "$0 = $1"),
+  -- Kind.isVarName (and Kind.isIdent)
+  ("kw_as_identifier_1", ["UNRELATE"], none,
+    "$0 = $1"),
+  -- Kind.isVarName (and Kind.isIdent)
+  ("kw_as_identifier_1", ["USING"], none,
+    "$0 = $1"),
+  -- Kind.isVarName (and Kind.isIdent)
+  ("kw_as_identifier_1", ["WHERE"], none,
+    "$0 = $1"),
+  -- Kind.isIdent
+  ("kw_as_identifier_2", ["BRIDGE"], none,
+    "$0 = $1"),
+  -- Kind.isIdent
+  ("kw_as_identifier_2", ["CARDINALITY"], none,
+    "$0 = $1"),
+  -- Kind.isIdent
+  ("kw_as_identifier_2", ["EMPTY"], none,
+    "$0 = $1"),
+  -- Kind.isIdent
+  ("kw_as_identifier_2", ["FALSE"], none,
+    "$0 = $1"),
+  -- Kind.isIdent
+  ("kw_as_identifier_2", ["NOT"], none,
+    "$0 = $1"),
+  -- Kind.isIdent
+  ("kw_as_identifier_2", ["NOT_EMPTY"], none,
+    "$0 = $1"),
+  -- Kind.isIdent
+  ("kw_as_identifier_2", ["OF"], none,
+    "$0 = $1"),
+  -- Kind.isIdent
+  ("kw_as_identifier_2", ["SEND"], none,
+    "$0 = $1"),
+  -- Kind.isIdent
+  ("kw_as_identifier_2", ["TRANSFORM"], none,
+    "$0 = $1"),
+  -- Kind.isIdent
+  ("kw_as_identifier_2", ["TRUE"], none,
+    "$0 = $1"),
+  -- Kind.isIdent
+  ("kw_as_identifier_3", ["PARAM"], none,
+    "$0 = $1"),
+  -- Kind.isIdent
+  ("kw_as_identifier_3", ["RCVD_EVT"], none,
+    "$0 = $1"),
+  -- Kind.isIdent
+  ("kw_as_identifier_3", ["SELECTED"], none,
+    "$0 = $1"),
+  -- Kind.isIdent
+  ("kw_as_identifier_3", ["SELF"], none,
+    "$0 = $1"),
+  -- Kind.isIdent
+  ("kw_as_identifier_4", ["AND"], none,
+    "$0 = $1"),
+  -- Kind.isIdent
+  ("kw_as_identifier_4", ["ELIF"], none,
+    "$0 = $1"),
+  -- Kind.isIdent
+  ("kw_as_identifier_4", ["ELSE"], none,
+    "$0 = $1"),
+  -- Kind.isIdent
+  ("kw_as_identifier_4", ["IF"], none,
+    "$0 = $1"),
+  -- Kind.isIdent
+  ("kw_as_identifier_4", ["OR"], none,
+    "$0 = $1"),
+  -- Kind.isIdent
+  ("kw_as_identifier_4", ["RETURN"], none,
+    "$0 = $1"),
+  -- Kind.isIdent
+  ("kw_as_identifier_4", ["WHILE"], none,
+    "$0 = $1"),
+  -- takeVarName / Kind.isVarName
   ("limited_identifier", ["ID"], none,
     "$0 = $1"),
-  -- NOT MODELLED: keyword as identifier (outside the domain)
+  -- takeVarName / Kind.isVarName
   ("limited_identifier", ["kw_as_identifier_1"], none,
     "$0 = $1"),
   -- the NAMESPACE token (parsePrefix, parseKw)
@@ -875,7 +1096,7 @@ def stmtGrammar : List (String × List String × Option String × String) := [
   -- parsePhrase
   ("phrase", ["identifier"], none,
     "$0 = \"'%s'\" % $1"),
-  -- takeId
+  -- takeVarName / Kind.isVarName
   ("rel_id", ["limited_identifier"], none,
     "$0 = $1"),
   -- parseBlock (an empty statement is skipped)
@@ -1052,10 +1273,10 @@ def stmtGrammar : List (String × List String × Option String × String) := [
   -- parseStmt
   ("statement", ["WHILE", "expression", "block", "END_WHILE"], none,
     "$0 = WhileNode(expression=$2, block=$3)"),
-  -- parseStmt
+  -- parseStmt (startsAccessStmt)
   ("statement", ["invocation"], none,
     "$0 = InvocationStatementNode($1)"),
-  -- parseStmt
+  -- parseStmt (startsAccessStmt)
   ("statement", ["variable_access", "EQUAL", "expression"], none,
     "$0 = AssignmentNode(variable_access=$1, expression=$3)"),
   -- parseBlock
@@ -1064,28 +1285,37 @@ def stmtGrammar : List (String × List String × Option String × String) := [
   -- parseBlock
   ("statement_list", ["statement", "SEMICOLON", "statement_list"], none,
     "$0 = $3; if $1 is not None: $0.children.insert(0, $1)"),
-  -- takeId
+  -- takeVarName / Kind.isVarName
   ("variable_name", ["limited_identifier"], none,
     "$0 = $1") ]
 
 /-! ### re-spelling of keywords (C08)
 
-  `Block.mapKw g` rewrites exactly the fields of a statement tree that hold the lexeme of a keyword-kind
-  token: select cardinality, `self` written as an instance name (delete / relate / unrelate / using), and,
-  inside expressions, boolean literal values and operators (`Expr.mapKw`). -/
+  `Block.mapKw g` rewrites exactly the fields of a statement tree that hold a token or the lexeme of a
+  keyword-kind token: select cardinality, `self` written as an instance name (delete / relate / unrelate /
+  using), name tokens (changed only if the name is a keyword, for `KwOnly g`), phrases written as identifiers,
+  and, inside expressions, boolean literal values and operators (`Expr.mapKw`). -/
 
 def CardTok.mapKw (g : Kind → String → String) (c : CardTok) : CardTok := ⟨c.c, g c.c.kind c.lex⟩
 
 def InstName.mapKw (g : Kind → String → String) : InstName → InstName
-  | .var n => .var n
+  | .var n => .var (mapTok g n)
   | .self lex => .self (g .SELF lex)
 
+def Phrase.mapKw (g : Kind → String → String) : Phrase → Phrase
+  | .ticked lex => .ticked lex
+  | .ident n => .ident (mapTok g n)
+
+def NavStep.mapKw (g : Kind → String → String) (s : NavStep) : NavStep :=
+  ⟨mapTok g s.kl, mapTok g s.rel, s.phrase.map (Phrase.mapKw g)⟩
+
 def EvSpec.mapKw (g : Kind → String → String) (es : EvSpec) : EvSpec :=
-  ⟨es.id, es.star, es.meaning, es.parens, es.data.mapKw g⟩
+  ⟨mapTok g es.id, es.star, es.meaning.map (Phrase.mapKw g), es.parens, es.data.mapKw g⟩
 
 def EvTarget.mapKw (g : Kind → String → String) : EvTarget → EvTarget
   | .inst e => .inst (e.mapKw g)
-  | tg => tg
+  | .cls kl a => .cls (mapTok g kl) a
+  | .creator kl => .creator (mapTok g kl)
 
 mutual
 def Stmt.mapKw (g : Kind → String → String) : Stmt → Stmt
@@ -1095,21 +1325,23 @@ def Stmt.mapKw (g : Kind → String → String) : Stmt → Stmt
   | .ret e => .ret (e.map (Expr.mapKw g))
   | .assign kw va e => .assign kw (va.mapKw g) (e.mapKw g)
   | .invoke inv => .invoke (inv.mapKw g)
-  | .kwCall k va ns n ps => .kwCall k (va.map (Expr.mapKw g)) ns n (ps.mapKw g)
-  | .trCall va h n ps => .trCall (va.map (Expr.mapKw g)) (h.mapKw g) n (ps.mapKw g)
-  | .sendEvent p n ps to => .sendEvent p n (ps.mapKw g) (to.mapKw g)
+  | .kwCall k va ns n ps => .kwCall k (va.map (Expr.mapKw g)) ns (mapTok g n) (ps.mapKw g)
+  | .trCall va h n ps => .trCall (va.map (Expr.mapKw g)) (h.mapKw g) (mapTok g n) (ps.mapKw g)
+  | .sendEvent p n ps to => .sendEvent p (mapTok g n) (ps.mapKw g) (to.mapKw g)
   | .gen es tg => .gen (es.mapKw g) (tg.mapKw g)
   | .genPre va => .genPre (va.mapKw g)
-  | .crtEv v es tg => .crtEv v (es.mapKw g) (tg.mapKw g)
-  | .createObj v kl => .createObj v kl
-  | .createObjNoVar kl => .createObjNoVar kl
+  | .crtEv v es tg => .crtEv (mapTok g v) (es.mapKw g) (tg.mapKw g)
+  | .createObj v kl => .createObj (mapTok g v) (mapTok g kl)
+  | .createObjNoVar kl => .createObjNoVar (mapTok g kl)
   | .delete i => .delete (i.mapKw g)
-  | .forEach v s lp b => .forEach v s lp (b.mapKw g)
+  | .forEach v s lp b => .forEach (mapTok g v) (mapTok g s) lp (b.mapKw g)
   | .while_ c lp b => .while_ (c.mapKw g) lp (b.mapKw g)
   | .if_ c th b el e => .if_ (c.mapKw g) th (b.mapKw g) (el.mapKw g) (e.mapKw g)
-  | .rel un a b r ph u => .rel un (a.mapKw g) (b.mapKw g) r ph (u.map (InstName.mapKw g))
-  | .selFrom card v io kl w => .selFrom (card.mapKw g) v io kl (w.map (Expr.mapKw g))
-  | .selRel card v hook chain w => .selRel (card.mapKw g) v (hook.mapKw g) chain (w.map (Expr.mapKw g))
+  | .rel un a b r ph u =>
+    .rel un (a.mapKw g) (b.mapKw g) (mapTok g r) (ph.map (Phrase.mapKw g)) (u.map (InstName.mapKw g))
+  | .selFrom card v io kl w => .selFrom (card.mapKw g) (mapTok g v) io (mapTok g kl) (w.map (Expr.mapKw g))
+  | .selRel card v hook chain w =>
+    .selRel (card.mapKw g) (mapTok g v) (hook.mapKw g) (chain.map (NavStep.mapKw g)) (w.map (Expr.mapKw g))
 def Block.mapKw (g : Kind → String → String) : Block → Block
   | .nil => .nil
   | .cons s b => .cons (s.mapKw g) (b.mapKw g)
@@ -1121,9 +1353,10 @@ def Else.mapKw (g : Kind → String → String) : Else → Else
   | .some b => .some (b.mapKw g)
 end
 
-/-- the tree with the spelling of keywords normalised: lower-cases exactly the fields that keep a keyword
-    verbatim (select cardinality, operator of unary / binary nodes, boolean literal value, `self` as an
-    instance name); identifiers, literals, phrases, relationship ids are untouched -/
+/-- the tree with the spelling of keywords normalised: lower-cases exactly the fields that keep the lexeme of a
+    keyword-kind token verbatim (select cardinality, operator of unary / binary nodes, boolean literal value,
+    `self` as an instance name, and a NAME or identifier-phrase that is a keyword token); names that are ID
+    tokens, literals, ticked phrases, namespaces are untouched -/
 def normCase (b : Block) : Block := b.mapKw lowerKw
 
 def Expr.normCase (e : Expr) : Expr := e.mapKw lowerKw
